@@ -215,6 +215,8 @@ func checkDAG(base *ruleSet, b *builder, nProbes int, extra []string, st *stats)
 			}
 		}
 		if len(n.inc) > 0 {
+			// non-trivial for this route: a plugin composed of other plugins
+			st.fp["dag|"+strconv.FormatInt(base.Seed, 36)+"|"+strconv.Itoa(i)+"|"+strconv.Itoa(len(n.inc))] = struct{}{}
 			st.add("dag_plugins_with_"+strconv.Itoa(len(n.inc))+"_included_sets", 1)
 		}
 	}
